@@ -64,9 +64,131 @@ def subscript_keys(f, base_name):
     return out
 
 
+def _type_names(t):
+    if t[0] == "t":
+        return {n for x in t[1] for n in _type_names(x)}
+    if t[0] == "ref":
+        return {t[1].replace(":", ".").split(".")[-1]}
+    return {"?"}
+
+
+def _kind_oracle(kind, V):
+    """Decides the type-dispatch tests of the HDF5 codec for one kind of value."""
+    def conv(t):  # the value after value.decode('utf-8') / encode_samples(value)
+        if t[0] == "f" and t[1] == "method:decode" and t[2][0] == V:
+            return {"str"}
+        if t[0] == "f" and "encode_samples" in t[1]:
+            return {"dict"}
+        return None
+
+    def o(c):
+        if c[0] == "f" and c[1] == "isinstance":
+            subj, typ = c[2]
+            if subj == V:
+                return bool(_type_names(typ) & kind.get("types", set()))
+            if conv(subj) is not None:
+                return bool(_type_names(typ) & conv(subj))
+            return None
+        if c == ("is", V, T.NONE):
+            return kind.get("none", False)
+        if c == V:
+            return kind.get("truthy", True)
+        if c[0] == "f" and "encode_samples" in c[1]:
+            return True
+        if c[0] == "f" and c[1].endswith("all"):
+            return kind.get("allstr")
+        if c[0] == "f" and c[1].endswith("is_jax_array"):
+            return kind.get("jax", False)
+        if c[0] == "f" and c[1].endswith("is_torch_array"):
+            return kind.get("torch", False)
+        if c[0] == "cmp" and c[1] == "==" and "text" in kind:
+            ks = [x for x in c[2:] if x[0] == "k"]
+            if len(ks) == 1:
+                return ks[0][1] == kind["text"]
+        if c[0] == "in" and c[1][0] == "k" and c[2] == V and "has" in kind:
+            return c[1][1] in kind["has"]
+        return None
+    return o
+
+
+def codec_dispatch(ctx, repo):
+    """C13.dispatch: encode_for_hdf5 / decode_from_hdf5 folded once per kind of
+    value (the isinstance / is None / emptiness tests are decided by the kind), so
+    that each kind takes the branch meant for it and the two sides pair up."""
+    enc, dec = repo.func(f"{U}:encode_for_hdf5"), repo.func(f"{U}:decode_from_hdf5")
+    V = T.atom(enc.params[0])
+    W = T.atom(dec.params[0])
+
+    def fold_kind(f, kind, var):
+        ev = Evaluator(repo, max_depth=0, assume=_kind_oracle(kind, var))
+        return T.strip_raise(ev.run(f))
+
+    def is_call(t, name, arg=None):
+        return t[0] == "f" and t[1].endswith(name) and (arg is None or (t[2] and t[2][0] == arg))
+
+    def comp_of(t, kind, fn, src):
+        """t == <kind>comp(fn(elem(src)))"""
+        return t[0] == "f" and t[1] == kind and len(t[2]) == 2 and t[2][1] == ("t", (src, ("t", ()))) and is_call(t[2][0], fn, ("f", "elem", (src,), ()))
+
+    def dictcomp_of(t, fn, src, key_pred):
+        items = ("f", "method:items", (src,), ())
+        el = ("f", "elem", (items,), ())
+        if not (t[0] == "f" and t[1] == "dictcomp" and len(t[2]) == 2 and t[2][1] == ("t", (items, ("t", ())))):
+            return False
+        body = t[2][0]
+        return body[0] == "t" and key_pred(body[1][0], ("s", el, T.const(0))) and is_call(body[1][1], fn, ("s", el, T.const(1)))
+
+    none_s = fold_kind(enc, dict(none=True), V)
+    empty_s = fold_kind(enc, dict(types={"dict"}, truthy=False), V)
+    sent_ok = none_s[0] == "k" and empty_s[0] == "k" and isinstance(none_s[1], str) and isinstance(empty_s[1], str) and none_s != empty_s
+    ctx.decide(sent_ok, "C13.dispatch", enc.ident, loc_of(enc), f"None and the empty dict are stored as two distinct string sentinels ({T.show(none_s)}, {T.show(empty_s)})",
+               f"None is encoded as {T.show(none_s)[:80]} and the empty dict as {T.show(empty_s)[:80]}: they are not two distinct string sentinels, so one of them does not reload as itself", disc="enc|sentinels")
+    same = lambda t: t == V  # noqa: E731
+    enc_cases = [
+        ("non-empty dict", dict(types={"dict"}), lambda t: dictcomp_of(t, "encode_for_hdf5", V, lambda k, e: k == e), "a dict with every value encoded"),
+        ("str", dict(types={"str"}), same, "itself"), ("int", dict(types={"int"}), same, "itself"), ("float", dict(types={"float"}), same, "itself"),
+        ("ndarray", dict(types={"ndarray"}), same, "itself"),
+        ("jax array", dict(jax=True), same, "its NumPy conversion"), ("torch tensor", dict(torch=True), same, "its NumPy conversion"),
+        ("list of str", dict(types={"list"}, allstr=True), same, "a string array of its items"),
+        ("list", dict(types={"list"}, allstr=False), lambda t: comp_of(t, "listcomp", "encode_for_hdf5", V), "the list of its encoded items"),
+        ("tuple", dict(types={"tuple"}, allstr=False), lambda t: comp_of(t, "listcomp", "encode_for_hdf5", V) or (is_call(t, "tuple") and comp_of(t[2][0], "listcomp", "encode_for_hdf5", V)), "the sequence of its encoded items"),
+        ("set", dict(types={"set"}), lambda t: comp_of(t, "setcomp", "encode_for_hdf5", V), "the set of its encoded items"),
+        ("sample set", dict(types={"BaseSamples"}), lambda t: any(is_call(x, "encode_samples", V) for x in T.subterms(t)) and t[0] == "f" and t[1] == "dictcomp"
+            and any(is_call(x, "encode_for_hdf5") for x in T.subterms(t)), "encode_samples(value), encoded entry by entry"),
+        ("call history", dict(types={"CallHistory"}), lambda t: is_call(t, "method:to_dict", V), "its to_dict() form"),
+    ]
+    for name, kind, pred, what in enc_cases:
+        r = fold_kind(enc, kind, V)
+        ctx.decide(pred(r), "C13.dispatch", enc.ident, loc_of(enc), f"a {name} is encoded as {what}",
+                   f"a {name} is encoded as {T.show(r)[:160]}, not as {what}: it does not reload as the value that was saved", disc=f"enc|{name}")
+    if sent_ok:
+        raw = lambda t: t == W  # noqa: E731
+        txt = ("f", "method:decode", (W, T.K("utf-8")), ())
+        dec_cases = [
+            ("the None sentinel (bytes)", dict(types={"bytes"}, text=none_s[1]), lambda t: t == T.NONE, "None"),
+            ("the empty-dict sentinel (bytes)", dict(types={"bytes"}, text=empty_s[1]), lambda t: t == ("d", ()), "{}"),
+            ("any other bytes string", dict(types={"bytes"}, text="\0"), lambda t: t == txt, "its utf-8 text"),
+            ("the None sentinel (str)", dict(types={"str"}, text=none_s[1]), lambda t: t == T.NONE, "None"),
+            ("the empty-dict sentinel (str)", dict(types={"str"}, text=empty_s[1]), lambda t: t == ("d", ()), "{}"),
+            ("any other str", dict(types={"str"}, text="\0"), raw, "itself"),
+            ("an ndarray", dict(types={"ndarray"}), raw, "itself (0-d arrays as scalars, string arrays as lists)"),
+            ("a list", dict(types={"list"}), lambda t: comp_of(t, "listcomp", "decode_from_hdf5", W), "the list of its decoded items"),
+            ("a tuple", dict(types={"tuple"}), lambda t: is_call(t, "tuple") and comp_of(t[2][0], "listcomp", "decode_from_hdf5", W), "the tuple of its decoded items"),
+            ("a set", dict(types={"set"}), lambda t: comp_of(t, "setcomp", "decode_from_hdf5", W), "the set of its decoded items"),
+            ("an encoded sample set", dict(types={"dict"}, has={"__samples__"}), lambda t: is_call(t, "decode_samples", W), "decode_samples(value)"),
+            ("a plain dict", dict(types={"dict"}, has=set()), lambda t: dictcomp_of(t, "decode_from_hdf5", W, lambda k, e: k == e or (is_call(k, "method:decode", e))), "a dict with every value decoded"),
+            ("a number", dict(), raw, "itself"),
+        ]
+        for name, kind, pred, what in dec_cases:
+            r = fold_kind(dec, kind, W)
+            ctx.decide(pred(r), "C13.dispatch", dec.ident, loc_of(dec), f"{name} decodes to {what}",
+                       f"{name} decodes to {T.show(r)[:160]}, not to {what}", disc=f"dec|{name}")
+
+
 def run(ctx):
     repo = ctx.repo
     um = repo.module(U)
+    codec_dispatch(ctx, repo)
 
     # (1) sentinels
     enc, dec = repo.func(f"{U}:encode_for_hdf5"), repo.func(f"{U}:decode_from_hdf5")
@@ -313,10 +435,21 @@ MUTANTS = [
     M("config gains a key that is not a parameter", _A, "\"eps\": self.eps,\n            \"dtype\"", "\"eps\": self.eps,\n            \"n_dims\": self.dims,\n            \"dtype\"", "C13.config"),
 ]
 MUTANTS += [
+    M("encoder: None test inverted", _U, "if value is None:\n        return \"__none__\"", "if value is not None:\n        return \"__none__\"", "C13.dispatch"),
+    M("encoder: sample sets returned raw", _U, "if isinstance(value, BaseSamples):\n        value = encode_samples(value)", "if not isinstance(value, BaseSamples):\n        value = encode_samples(value)", "C13.dispatch"),
+    M("encoder: empty test inverted", _U, "if not value:\n            return \"__empty_dict__\"", "if value:\n            return \"__empty_dict__\"", "C13.dispatch"),
+    M("encoder: nested values not encoded", _U, "return {k: encode_for_hdf5(v) for k, v in value.items()}", "return {k: v for k, v in value.items()}", "C13.dispatch"),
+    M("decoder: sentinels swapped", _U, "if value == \"__none__\":\n            return None\n        if value == \"__empty_dict__\":\n            return {}", "if value == \"__none__\":\n            return {}\n        if value == \"__empty_dict__\":\n            return None", "C13.dispatch"),
+    M("decoder: bytes not decoded", _U, "if isinstance(value, bytes):  # HDF5 may store strings as bytes\n        value = value.decode(\"utf-8\")", "if isinstance(value, str):\n        value = value.decode(\"utf-8\")", "C13.dispatch"),
+    M("decoder: sample sets not rebuilt", _U, "if \"__samples__\" in value:\n            return decode_samples(value)", "if \"__samples__\" not in value:\n            return decode_samples(value)", "C13.dispatch"),
+
     M("torch save consumes the stored constructor arguments", _TF, "config = self.config_dict().copy()\n        data_transform = config.pop(\"data_transform\", None)", "config = self.config_dict()\n        data_transform = config.pop(\"data_transform\", None)", "C13.nomut"),
     M("from_dict stacks columns in mapping order", _S, "x = np.stack([samples[p] for p in parameters], axis=-1)", "x = np.stack(list(samples.values()), axis=-1)", "C13.dictorder"),
 ]
 NEUTRALS = [
+    M("encoder: None tested first", _U, "if is_jax_array(value) or is_torch_array(value):\n        return to_numpy(value)", "if value is None:\n        return \"__none__\"\n    if is_jax_array(value) or is_torch_array(value):\n        return to_numpy(value)"),
+    M("decoder: sentinel tests reordered", _U, "if value == \"__none__\":\n            return None\n        if value == \"__empty_dict__\":\n            return {}", "if value == \"__empty_dict__\":\n            return {}\n        if value == \"__none__\":\n            return None"),
+
     M("config keys reordered", _A, "\"eps\": self.eps,\n            \"dtype\": _dtype_to_name(self.dtype),", "\"dtype\": _dtype_to_name(self.dtype),\n            \"eps\": self.eps,"),
     M("empty-dict guard via len", _U, "if isinstance(value, dict) and value:", "if isinstance(value, dict) and len(value) > 0:"),
 ]
